@@ -9,7 +9,7 @@ from mirsym.explore import PathAbort, Panic
 from mirsym.values import Adt, clone_val, PyVec, Some, NONE
 from mirsym.models.core import val_eq, z_and, z_all, z_any, z_not
 from .common import get_interp, show
-from .cloudworld import CloudWorld
+from .cloudworld import CloudWorld, replay_scenario, replay_judge, validate_samples  # noqa: F401
 
 PROPERTY = 'C08'
 LEVEL = 'other'
@@ -41,7 +41,8 @@ class Harness:
         log = []
 
         def wit(m):
-            return {'calls': show(log, m)}
+            scn, pred = w.record(m)
+            return {'calls': show(log, m), 'cloud': {'scenario': scn, 'predicted': pred}}
         for step in range(self.ncalls):
             srv = servers[c.choose(self.nclients, 'client') if step else 0]
             kind = ['add_version', 'get_child_version', 'add_snapshot', 'get_snapshot'][c.choose(4, 'call')]
@@ -154,6 +155,9 @@ class Harness:
             return None
         out = {'calls': [l[0] for l in log], 'chain': len(chain)}
         if c.want_sample:
+            m = c.get_model()
+            if m is not None:
+                out['scenario'], out['predicted'] = w.record(m)
             out['_encoded'] = sorted(I.encoded)
             out['_modelled'] = sorted(I.modelled)
         return out
@@ -175,7 +179,7 @@ ASSUMPTIONS = [
     'claimed for the object-store backend only: local (SQLite FFI), git (sub-processes) and HTTP (reqwest, remote server) backends cannot be executed symbolically',
     'object store = model of the Service trait contract (get/put/del/list by prefix/compare-and-swap); ring primitives idealised (see C13); Uuid::new_v4 returns fresh distinct values with symbolic order',
     'payloads: 0-2 symbolic bytes (empty and non-UTF-8 included); large payloads outside; object creation times equal the current time (no version is old enough for age-based cleanup here, that is C10)',
-    'counterexamples are judged by the engine: the object-store server cannot be reached through the public API without the replay hook (see DESIGN.md)',
+    'replay: the solver model is run on the compiled CloudServer over the hook in-memory object store; a counterexample is confirmed when results, request log and store content equal the interpreter\'s prediction (ids compared up to renaming, since the real code mints them at random)',
 ]
 EXPLANATION = ('call kinds, client handle and parent choice forked; payload bytes, version ids (and their order), the random cleanup/urgency '
                'draws are z3 terms; every result is compared with a reference chain model and the chain is finally walked from nil')
